@@ -2,7 +2,7 @@
 """Apply one property-breaking patch to a scratch copy of /repo (HEAD), confirm the repository's own suite
 still passes, run the named quick checks against the copy and report which ones raise an alarm.
 
-usage: run_mutant.py <patch.diff> <ID> [<ID> ...] [--tier quick|thorough] [--keep] [--skip-tests]
+usage: run_mutant.py <patch.diff> <ID> [<ID> ...] [--tier quick|thorough] [--base <commit>] [--demo <file>] [--keep] [--skip-tests]
 The scratch copy lives under /tmp and is removed afterwards.  /repo itself is never touched.
 """
 import os
@@ -20,6 +20,10 @@ def main():
     if "--demo" in sys.argv:
         demo = os.path.abspath(sys.argv[sys.argv.index("--demo") + 1])
         args.remove(sys.argv[sys.argv.index("--demo") + 1])
+    base = "HEAD"
+    if "--base" in sys.argv:
+        base = sys.argv[sys.argv.index("--base") + 1]
+        args.remove(base)
     tier = "quick"
     if "--tier" in sys.argv:
         tier = sys.argv[sys.argv.index("--tier") + 1]
@@ -27,7 +31,7 @@ def main():
     patch, props = os.path.abspath(args[0]), args[1:]
     tmp = tempfile.mkdtemp(prefix="crverif_mut_")
     try:
-        subprocess.run("git -C /repo archive HEAD | tar -x -C %s" % tmp, shell=True, check=True)
+        subprocess.run("git -C /repo archive %s | tar -x -C %s" % (base, tmp), shell=True, check=True)
         r = subprocess.run(["patch", "-p1", "-s", "-i", patch], cwd=tmp)
         if r.returncode != 0:
             print("PATCH-FAILED", patch)
@@ -44,7 +48,7 @@ def main():
         if demo:
             clean = tempfile.mkdtemp(prefix="crverif_clean_")
             try:
-                subprocess.run("git -C /repo archive HEAD | tar -x -C %s" % clean, shell=True, check=True)
+                subprocess.run("git -C /repo archive %s | tar -x -C %s" % (base, clean), shell=True, check=True)
                 cmd = ["/venv/bin/python", "-m", "pytest", "-q", "-p", "no:cacheprovider", demo] if os.path.basename(demo).startswith("test_") else ["/venv/bin/python", demo]
                 for where, label in ((tmp, "with change"), (clean, "without change")):
                     shutil.copy(demo, where)
